@@ -102,14 +102,15 @@ Section AckInv.
 
   Section Step.
     Variables (n : nat) (σ : sys) (G : list lrec) (A : list ack).
-    Variables (i : nid) (s : node) (ev : event) (k : N) (crashed : bool) (st : N) (s' : node).
+    Variables (i : nid) (s : node) (ev : event) (k : N) (s' : node).
     Hypothesis Hlen : length (sy_nodes σ) = n.
     Hypothesis KI : ackinv σ G A.
     Hypothesis Gs : get_node i (sy_nodes σ) = Some s.
     Hypothesis Hdel : forall m, ev = EDeliver m -> In m (sy_soup σ) /\ m_to m <> 0.
-    Hypothesis Hev : evok2 n ev.
     Hypothesis Hres : evres bm be ev.
-    Hypothesis Hrun : run_event_crash (settle s) ev k = Ret (crashed, st, s').
+    Hypothesis NS : nstep s ev k s'.
+    Hypothesis El0 : Election.inv (map n_id (sy_nodes σ)) (step_sys σ s').
+    Hypothesis I20 : inv2 n (step_sys σ s').
 
     Let σ' := step_sys σ s'.
     Let G' := G ++ rec_of s s'.
@@ -121,14 +122,14 @@ Section AckInv.
     Lemma st_GI : ginv bm be σ G. Proof. apply (k_g _ _ _ KI). Qed.
 
     Lemma st_GI' : ginv bm be σ' G'.
-    Proof. apply (ginv_step_rec bm be n σ G i s ev k crashed st s' Hlen st_GI Gs Hdel Hev Hres Hrun). Qed.
+    Proof. apply (ginv_step_abs bm be n σ G i s ev k s' Hlen st_GI Gs Hdel Hres NS El0 I20). Qed.
 
     Lemma st_incl : incl G G'.
     Proof. intros r Hr. apply in_or_app. left. exact Hr. Qed.
 
     Lemma st_id : n_id s' = i.
     Proof.
-      destruct (step_facts _ _ _ _ _ _ Hrun) as [Hid _]. destruct (get_node_in _ _ _ Gs) as [_ Gid]. congruence.
+      pose proof (ns_id _ _ _ _ NS) as Hid. destruct (get_node_in _ _ _ Gs) as [_ Gid]. congruence.
     Qed.
 
     Lemma st_Gs' : get_node i (sy_nodes σ') = Some s'.
@@ -137,16 +138,8 @@ Section AckInv.
     Lemma st_Go j : j <> i -> get_node j (sy_nodes σ') = get_node j (sy_nodes σ).
     Proof. intro Hj. simpl. apply get_put_other. rewrite st_id. exact Hj. Qed.
 
-    Lemma st_ev4 : evok4 ev.
-    Proof.
-      pose proof st_GI as GI. destruct ev; simpl in *; auto; try contradiction.
-      destruct (Hdel m eq_refl) as [Min _]. pose proof (g_msgs _ _ _ _ GI m Min) as Mk. unfold msg_ok3 in Mk.
-      destruct (m_body m); auto. destruct ents as [es |]; auto. destruct Mk as [j [l1 [X1 [Y1 Z1]]]]. split; auto.
-      eapply slice_wf; eauto. eapply (g_rec_wf _ _ _ _ GI); eauto.
-    Qed.
-
     Lemma st_NI : LogMatchNode.inv (with_budget (settle s) k) (inp_of ev) (boot_of ev) (rt_of ev) (vq_of ev) (lq_of s) (dc_of ev) (rsp_of ev) s'.
-    Proof. apply (run_event_crash_lm s ev k crashed st s' (g_base _ _ _ _ st_GI i s Gs) st_ev4 Hrun). Qed.
+    Proof. exact (ns_inv _ _ _ _ NS). Qed.
 
     Lemma st_term_le : p_term (n_p s) <= T'.
     Proof. pose proof (v_tm _ _ _ _ _ _ _ _ _ st_NI) as X. exact X. Qed.
@@ -169,7 +162,7 @@ Section AckInv.
       destruct (Hdel md Eev) as [Min _]. pose proof (g_msgs _ _ _ _ GI md Min) as Mk. unfold msg_ok3 in Mk. rewrite Ebd in Mk.
       destruct Mk as [j [l [Rin [Sl Tm1]]]].
       assert (Htm : m_term md = T').
-      { rewrite Eev in Hrun. destruct (deliver_term _ _ _ _ _ _ Hrun) as [D | D]; [rewrite D in H0; contradiction | unfold T'; congruence]. }
+      { destruct (ns_term _ _ _ _ NS md Eev) as [D | D]; [rewrite D in H0; contradiction | unfold T'; congruence]. }
       assert (Hl : exists e2, nth_error l (N.to_nat (idx - 1)) = Some e2 /\ e_term e2 = e_term e1).
       { unfold rt_of in R1. rewrite Eev, Ebd in R1. destruct R1 as [[R1 R2] | [ents [jj [ee [R1 [R2 [R3 R4]]]]]]].
         - destruct Sl as [_ [Ta _]]. destruct Ta as [Z0 | [e2 [A1 A2]]].
@@ -270,10 +263,10 @@ Section AckInv.
       - right. eapply escapes_mono; [apply incl_refl | apply st_term_le | exact Es].
     Qed.
 
-    Lemma ackinv_step_rec : ackinv σ' G' A'.
+    Lemma ackinv_step_abs : ackinv σ' G' A'.
     Proof.
       pose proof st_GI as GI. pose proof st_GI' as GI'. pose proof st_Gs' as Gs'. pose proof st_id as Hi.
-      destruct (step_facts _ _ _ _ _ _ Hrun) as [Hid [Hp [Hm He]]].
+      pose proof (ns_id _ _ _ _ NS) as Hid. pose proof (ns_pext _ _ _ _ NS) as Hp. pose proof (ns_msgs _ _ _ _ NS) as Hm. pose proof (ns_esum _ _ _ _ NS) as He.
       constructor.
       - exact GI'.
       - (* acknowledged prefixes are prefixes of a leader record of their term *)
@@ -323,6 +316,17 @@ Section AckInv.
           intros kk [[H1 H2] _]. left. apply keeps_firstn_firstn. rewrite firstn_length in H2. lia.
     Qed.
   End Step.
+
+  Lemma ackinv_step_rec n σ G A i s ev k crashed st s' :
+    length (sy_nodes σ) = n -> ackinv σ G A -> get_node i (sy_nodes σ) = Some s ->
+    (forall m, ev = EDeliver m -> In m (sy_soup σ) /\ m_to m <> 0) -> evok2 n ev -> evres bm be ev ->
+    run_event_crash (settle s) ev k = Ret (crashed, st, s') ->
+    ackinv (step_sys σ s') (G ++ rec_of s s') (A ++ acks_of s' ++ rec_acks (rec_of s s')).
+  Proof.
+    intros Hlen KI Gs Hdel Hev Hres Hrun.
+    destruct (abs_of_run bm be n σ G i s ev k crashed st s' Hlen (k_g _ _ _ KI) Gs Hdel Hev Hres Hrun) as [NS [El0 I20]].
+    apply (ackinv_step_abs n σ G A i s ev k s' Hlen KI Gs Hdel Hres NS El0 I20).
+  Qed.
 
   Lemma ackinv_step n σ G A e σ' :
     length (sy_nodes σ) = n -> ackinv σ G A -> lstep n bm be σ e σ' ->
